@@ -387,7 +387,7 @@ pub fn next_op(rng: &mut Rng, p: &Profile, cfg: &Cfg, v: &View) -> Op {
             if modes.is_empty() {
                 Op::Flush(0)
             } else {
-                Op::Reopen { mode: *rng.pick(&modes), cap: rng.below(3) as u8 }
+                Op::Reopen { mode: *rng.pick(&modes), cap: rng.below(4) as u8 }
             }
         }
         W_TRUNC => {
